@@ -535,3 +535,51 @@ Definition parse_tr_params (is_fill star : bool) (trid : Z) (params : list Z)
   | [a; b; c] => Ok (TSList [a; b; c; 1; 0; 0; 0; 1; 0; 0; 0; 1])
   | _ => Ok TSNorm
   end.
+
+(* ---- ParseMCNPCell.parse_one_cell_worker: the fields of a CellMCNP that come from the U, FILL
+   and TRCL keywords (no LAT).  [mk] = tuple(...) of the resulting numbers as a transformation,
+   [norm] = to_cos + normalize_transform on four or more numbers (numeric layer, opaque). *)
+Section Keywords.
+Variable T : Type.
+Variable mk : list Z -> T.
+Variable norm : bool -> list Z -> list Z.
+
+Definition kw_tuple (is_fill star : bool) (trid : Z) (params : list Z) (table : list (Z * list Z))
+  : res (list Z) :=
+  match parse_tr_params is_fill star trid params table with
+  | Err x => Err x
+  | Ok (TSList l) => Ok l
+  | Ok TSNorm => Ok (norm star params)
+  end.
+
+(* fill = (starred, universe, int(first number), numbers); trcl = (starred, int(first number),
+   numbers); u = the number after U (the code takes its absolute value) *)
+Definition cell_of_keywords (table : list (Z * list Z)) (mat rho : Z) (geom : tree) (imp : Z)
+           (u : option Z) (fill : option (bool * Z * Z * list Z)) (trcl : option (bool * Z * list Z))
+  : res (cell T) :=
+  match (match fill with
+         | None => Ok (None, None)
+         | Some (star, univ, trid, params) =>
+             match kw_tuple true star trid params table with
+             | Err x => Err x
+             | Ok l => Ok (Some univ, Some (mk l))
+             end
+         end) with
+  | Err x => Err x
+  | Ok (fillid, filltr) =>
+      match (match trcl with
+             | None => Ok []
+             | Some (star, trid, params) =>
+                 match kw_tuple false star trid params table with
+                 | Err x => Err x
+                 | Ok [] => Ok []                     (* [] if not kws['trcl'] *)
+                 | Ok l => Ok [mk l]
+                 end
+             end) with
+      | Err x => Err x
+      | Ok trcls =>
+          Ok (mkCell mat rho geom imp (match u with Some n => Z.abs n | None => 0 end)
+                     fillid filltr 0 trcls [])
+      end
+  end.
+End Keywords.
